@@ -16,6 +16,7 @@ package main
 
 import (
 	"bytes"
+	"encoding/base64"
 	"encoding/json"
 	"encoding/xml"
 	"errors"
@@ -1364,15 +1365,45 @@ func (t *XT) coqStyle() (string, bool) {
 		if t.S == failingClosure {
 			return "SCloErr", true
 		}
+		if t.S == "x->x" {
+			return "SCloId", true
+		}
 		return "", false
 	case "map":
-		// css maps only: string / int values, no table formats, no plainList key
+		// css entries with string / int values, no plainList key; the key table holds the table format map
 		var parts []string
+		tab := ""
 		for i, k := range t.Keys {
-			if k == "table" || k == "plainList" {
+			it := t.Items[i]
+			if k == "plainList" {
 				return "", false
 			}
-			it := t.Items[i]
+			if k == "table" {
+				if it.Kind != "map" {
+					return "", false
+				}
+				var tf []string
+				for j, fk := range it.Keys {
+					fv := it.Items[j]
+					if fv.Kind == "map" {
+						for _, kk := range fv.Keys {
+							if kk == "table" {
+								return "", false
+							}
+						}
+					}
+					if fv.Kind != "str" && fv.Kind != "map" && !(fv.Kind == "closure" && (fv.S == failingClosure || fv.S == "x->x")) {
+						return "", false
+					}
+					st, ok := fv.coqStyle()
+					if !ok {
+						return "", false
+					}
+					tf = append(tf, "("+CoqStr(fk)+", "+st+")")
+				}
+				tab = CoqList(tf)
+				continue
+			}
 			switch it.Kind {
 			case "str":
 				parts = append(parts, "("+CoqStr(k)+", "+CoqStr(it.S)+")")
@@ -1381,6 +1412,9 @@ func (t *XT) coqStyle() (string, bool) {
 			default:
 				return "", false
 			}
+		}
+		if tab != "" {
+			return "STab " + CoqList(parts) + " " + tab, true
 		}
 		return "SMap " + CoqList(parts), true
 	}
@@ -1416,11 +1450,32 @@ func (t *XT) coqHVal() (string, bool) {
 		}
 		return "HM " + CoqList(parts), true
 	case "format":
-		st, ok := t.Style.coqStyle()
+		p, ok := t.Items[0].coqHVal()
 		if !ok {
 			return "", false
 		}
-		p, ok := t.Items[0].coqHVal()
+		if t.Style != nil && t.Style.Kind == "closure" && t.Style.S != failingClosure {
+			// a closure style that succeeds: its result for the wrapped value is handed to the model as data
+			inner := t.Items[0]
+			r := ""
+			switch t.Style.S {
+			case "x->x":
+				r = p
+			case "x->\"<b>\"+string(x)+\"</b>\"":
+				if inner.Kind != "str" && inner.Kind != "int" && inner.Kind != "bool" {
+					return "", false
+				}
+				r = "HS " + CoqStr("<b>"+scalarString(inner.Build())+"</b>")
+			case "x->[x,\"&\"]":
+				r = "HL [" + p + "; HS " + CoqStr("&") + "]"
+			case "x->{v:x}":
+				r = "HM [(" + CoqStr("v") + ", " + p + ")]"
+			default:
+				return "", false
+			}
+			return fmt.Sprintf("HFmtClo %s %d (%s) (%s)", CoqBool(t.Cell), t.ColSpan, r, p), true
+		}
+		st, ok := t.Style.coqStyle()
 		if !ok {
 			return "", false
 		}
@@ -1431,6 +1486,15 @@ func (t *XT) coqHVal() (string, bool) {
 			return "", false
 		}
 		return "HLnk " + CoqStr(t.S) + " (" + p + ")", true
+	case "file":
+		// base64 and the byteSize text are Go's (oracle strings for the model)
+		us, unit := len(t.Data), 0
+		units := []string{"Bytes", "kBytes", "MBytes", "GBytes", "TBytes"}
+		for us > 10000 && unit < len(units)-1 {
+			unit++
+			us = us / 1024
+		}
+		return fmt.Sprintf("HFile %s %s %s %s", CoqStr(t.S), CoqStr(t.Mime), CoqStr(base64.StdEncoding.EncodeToString(t.Data)), CoqStr(strconv.Itoa(us)+" "+units[unit])), true
 	}
 	return "", false
 }
@@ -1724,6 +1788,27 @@ func cmdC18(seed int64, tier, outDir string) {
 			conc = 2 + r.Pick(3)
 		}
 		c18RunHistory(r.genC18History(html, h%4), conc, &id, sum, cw)
+	}
+	// additive corpus (kept behind everything else so that the ids and the random stream of the cases above do not
+	// move): table formats rNcM / rN / cN / all with constant styles and a failing closure, File values in cells
+	tfm := func(kv ...any) *XT { m := xm(kv...); return m }
+	tbl := xl(xl(xs("a<1"), xs("b"), xs("c")), xl(xs("d"), xfmt(xs("own"), xs("e&")), xs("f")), xs("lonely"), xl(xs("g")))
+	file := &XT{Kind: "file", S: "n\".txt", Mime: "", Data: []byte("0123456789")}
+	for _, st := range []*XT{
+		tfm("color", xs("red"), "table", tfm("r1c1", xs("a:\"1\""), "r2", xs("row2"), "c2", tfm("font_weight", xs("bold")), "all", xs("<all>"))),
+		tfm("table", tfm("all", &XT{Kind: "closure", S: failingClosure}, "r1", xs("x"))),
+		tfm("table", tfm("r3c1", xs("single")), "width", xi(3)),
+		tfm("table", tfm("r2c2", &XT{Kind: "closure", S: "x->x"}, "r2", xs("row2"), "c1", &XT{Kind: "closure", S: "x->x"}, "all", xs("rest"))),
+		tfm("table", tfm()),
+	} {
+		for _, max := range []int{1, 2, 3} {
+			for _, inline := range []bool{true, false} {
+				id++
+				c18HTMLCase(&htmlCase{Tree: xfmt(st, tbl), MaxList: max, Inline: inline}, id, sum, cw)
+			}
+		}
+		id++
+		c18HTMLCase(&htmlCase{Tree: xfmt(st, xlink("u", xl(xl(file, xs("x")), xl(xi(1), xl(xs("in")))))), MaxList: 3, Inline: true}, id, sum, cw)
 	}
 	cw.Flush()
 	sum.CaseFiles = cw.files
